@@ -49,6 +49,8 @@ def prettify_parse_error(parse_error: ParseError) -> ParseError:
         RuleExpr("interpolated_number"): "<text>",
         RuleExpr("string"): "<text>",
         RuleExpr("static_string"): "<text>",
+        RuleExpr("string_part"): "<text>",
+        RuleExpr("static_string_part"): "<text>",
         RuleExpr("freeform_unit"): "<text>",
         # Add regex descriptions
         RegexExpr("[0-9]+"): "<number>",
